@@ -510,3 +510,40 @@ func H_C07_programs() {
 	vfNote(out)
 	vfAssert(out == want, "bindings are visible exactly from := to the end of the enclosing body; = rebinds the innermost visible one")
 }
+
+// H_C07_nilShadows: a variable that holds nil (declared as nil, or the value half of a
+// lookup that missed) is still the innermost variable of its name: inside its body the
+// name denotes it - not a same-named variable further out (template scope, Execute
+// variable, global, built-in) - and after the body the outer one is back.
+//
+//gosym:reach rendered
+func H_C07_nilShadows() {
+	where := ndChoice("outer", 4) // 0 template variable, 1 Execute variable, 2 global, 3 built-in
+	how := ndChoice("how", 3)     // 0 x := nil, 1 x, ok := m["absent"], 2 x := nilPtr
+	name := "x"
+	if where == 3 {
+		name = "lower"
+	}
+	decl := []string{`{{ ` + name + ` := nil }}`, `{{ ` + name + `, ok := m["absent"] }}`, `{{ ` + name + ` := nilPtr }}`}[how]
+	pre := ""
+	if where == 0 {
+		pre = `{{ x := "outer" }}`
+	}
+	probe := `[{{ isset(` + name + `) }}]`
+	set := hxSet(nil, "/m.jet", pre+`{{ if true }}`+decl+probe+`{{ `+name+` = "inner" }}[{{ `+name+` }}]{{ end }}`+probe)
+	if where == 2 {
+		set.AddGlobal("x", "outer")
+	}
+	vars := make(VarMap)
+	if where == 1 {
+		vars.Set("x", "outer")
+	}
+	vars.Set("m", map[string]string{"k": "v"})
+	var np *int
+	vars.Set("nilPtr", np)
+	out, err := hxExec(set, "/m.jet", vars, nil)
+	vfReach("rendered")
+	vfAssert(err == nil, "renders")
+	vfNote(out)
+	vfAssert(out == "[false][inner][true]", "a variable holding nil shadows outer variables of its name until its body ends")
+}
